@@ -220,7 +220,7 @@ def main(run, tier):
     verify_functions(run, cs, {}, {}, tier=tier)
     import contracts.optimize as co
     ocs, _, _ = co.build(optimize)
-    verify_functions(run, ocs + co.build_all(optimize) + co.build_validate(optimize), {}, {}, tier=tier)
+    verify_functions(run, ocs + co.build_all(optimize) + co.build_validate(optimize) + co.build_unlink(optimize), {}, {}, tier=tier)
     partial_first_build(run, es5, optimize, pdir, fresh)
     c_locale_rebuild(run, es5, pdir, fresh)
     # ---- bounded: differential parse under the three configurations
